@@ -14,7 +14,7 @@ that pull the *real* text of items out of /repo at check time:
   //@  requires | ensures | decreases           clause lines follow, one clause ends at a line ending in ','
   //@  loop <n> iter <ident>                    name the ghost iterator of the n-th loop (a `for`)
   //@  loop <n> invariant | invariant_except_break | ensures | decreases     clause lines follow
-  //@  at body-start | at loop <n> body-start | at loop <n> body-end | at after-loop <n>   ghost lines follow
+  //@  at body-start | at loop <n> body-start | at loop <n> body-end | at after-loop <n> | at after-loop-inner <n> (R1 only: inside the block around the desugared loop)   ghost lines follow
   //@  desugar-for                              rule R1 on every `for` loop of the function
   //@end
 
@@ -132,7 +132,7 @@ class Weaver:
             what = origin.get('what', '')
             if k in ('clause', 'canary', 'tmpl', 'header'):
                 return
-            if k == 'ghost' and what != 'R1' and what != 'nl':
+            if k == 'ghost' and what not in ('R1', 'R3', 'R5', 'nl'):
                 return
             if k == 'ghost-inline':
                 return
@@ -379,7 +379,10 @@ class Weaver:
                 add(lp.start, 0, ('{ let mut __it%d = (' % n), {'k': 'ghost', 'fn': fname, 'what': 'R1'})
                 # mark deletion of "for PAT in " and keep EXPR verbatim: handled through cut list
                 ins.append((lp.start, -1, ('CUT', lp.in_kw + 2), None))
-                add(lp.body_open, 0, ').into_iter(); loop\n', {'k': 'ghost', 'fn': fname, 'what': 'R1'})
+                add(lp.body_open, 0, ').into_iter();', {'k': 'ghost', 'fn': fname, 'what': 'R1'})
+                # ghost snapshot of everything the iterator will yield (proof aid only; absent from the text of the translation check)
+                add(lp.body_open, 0, ' let ghost __all%d = __it%d.remaining();' % (n, n), {'k': 'ghost', 'fn': fname, 'what': 'R1-snapshot'})
+                add(lp.body_open, 0, ' loop\n', {'k': 'ghost', 'fn': fname, 'what': 'R1'})
                 k = 1
                 for t, o in clauses_txt:
                     add(lp.body_open, k, t, o)
@@ -410,6 +413,11 @@ class Weaver:
                 add(lp.body_close, 1, term + '\n' + '\n'.join(atl['body-end']) + '\n', {'k': 'ghost', 'fn': fname, 'what': 'at loop %d body-end' % n})
             if atl.get('after'):
                 add(lp.body_close + 1, 1, '\n' + '\n'.join(atl['after']) + '\n', {'k': 'ghost', 'fn': fname, 'what': 'at after-loop %d' % n})
+            if atl.get('after-inner'):
+                if not (lp.kind == 'for' and desugar):
+                    raise SpecError('%s loop %d: after-loop-inner needs desugar-for on a for loop' % (path, n))
+                # inside the block R1 opens around the loop (so that __itN / __allN are still in scope), after the `loop` itself
+                add(lp.body_close, 10, '\n' + '\n'.join(atl['after-inner']) + '\n', {'k': 'ghost', 'fn': fname, 'what': 'at after-loop-inner %d' % n})
         # assemble: walk offsets from it.header_end to it.end
         cuts = [(o, t[1]) for (o, order, t, org) in ins if isinstance(t, tuple)]
         ins = [x for x in ins if not isinstance(x[2], tuple)]
@@ -544,6 +552,8 @@ class Weaver:
                                 cur = ('text', d['at_loop'].setdefault(tok[2], {}).setdefault(tok[3], []))
                             elif tok[1] == 'after-loop':
                                 cur = ('text', d['at_loop'].setdefault(tok[2], {}).setdefault('after', []))
+                            elif tok[1] == 'after-loop-inner':
+                                cur = ('text', d['at_loop'].setdefault(tok[2], {}).setdefault('after-inner', []))
                             else:
                                 raise SpecError('bad at: ' + s2)
                         else:
@@ -607,7 +617,7 @@ VERIFICATION_MESSAGES = [
     'index out of bounds', 'possible bit shift underflow/overflow', 'decreases not satisfied',
     'loop invariant not satisfied', 'recommendation not met', 'unreachable', 'cannot prove termination',
     'could not prove termination', 'possible overflow', 'loop ensures not satisfied', 'failed this',
-    'possible truncation', 'constructor precondition', 'requirement not satisfied', 'not satisfied',
+    'possible truncation', 'constructor precondition', 'requirement not satisfied',
     'precondition not met', 'postcondition not met', 'might panic', 'cannot show', 'failed to prove',
 ]
 UNDECIDED_MESSAGES = ['Resource limit (rlimit) exceeded', 'rlimit', 'timed out', 'SMT solver']
@@ -689,6 +699,10 @@ def classify(diag, linemap):
     prim = [sp for sp in diag.get('spans', []) if sp.get('is_primary')]
     sec = [sp for sp in diag.get('spans', []) if not sp.get('is_primary')]
     is_ver = any(msg.startswith(v) or v in msg for v in VERIFICATION_MESSAGES)
+    # a diagnostic that carries a rustc error code (E0599 "... trait bounds were not satisfied", E0308, ...) is a front-end
+    # error about text the verifier could not take, never a failed proof obligation (Verus' own verification errors have no code)
+    if (diag.get('code') or {}).get('code'):
+        is_ver = False
     if any(u in msg for u in UNDECIDED_MESSAGES):
         return 'undecided', {'message': msg}
     if not is_ver:
